@@ -113,9 +113,101 @@ def handle_solve(case):
     return out
 
 
+class LinMap(om.ExplicitComponent):
+    """y = A x with constant dense partials"""
+    def __init__(self, A):
+        super().__init__()
+        self.A = np.atleast_2d(np.array(A, dtype=float))
+
+    def setup(self):
+        self.add_input('x', np.ones(self.A.shape[1]))
+        self.add_output('y', np.ones(self.A.shape[0]))
+        self.declare_partials('y', 'x', val=self.A)
+
+    def compute(self, inputs, outputs):
+        outputs['y'] = self.A @ inputs['x']
+
+
+def build_rhs(case, mode, rhs):
+    """ext -> g (solver with rhs_checking) -> rA: yA = A g_out -> rB: yB = k yA -> rC: yC = k2 yB, all responses"""
+    name = case['solver']
+    p = om.Problem()
+    ivc = p.model.add_subsystem('ext', om.IndepVarComp())       # design variables must be IndepVarComp outputs
+    for e in case['ext']:
+        ivc.add_output(e['name'], np.ones(e['size']), units=e['units'])
+    g = p.model.add_subsystem('g', om.Group())
+    comps = {}
+    for n in case['comps']:
+        comps[n['name']] = g.add_subsystem(n['name'], (c11.IComp if n['implicit'] else c11.EComp)(n))
+    for n in case['comps']:
+        for i in n['inputs']:
+            if i['src'] is None:
+                continue
+            src = i['src'] if i['src'].startswith('ext.') else 'g.' + i['src']
+            p.model.connect(src, 'g.%s.%s' % (n['name'], i['name']), src_indices=i['src_indices'])
+    kw = {} if rhs is None else {'rhs_checking': dict(rhs) if isinstance(rhs, dict) else bool(rhs)}
+    if name.startswith('direct'):
+        g.linear_solver = om.DirectSolver(assemble_jac=name.endswith('_asm'), **kw)
+    else:
+        g.linear_solver = om.ScipyKrylov(atol=1e-15, rtol=1e-15, maxiter=500, iprint=-1, **kw)
+    r = case['resp']
+    fq = lambda x: float(c11.Fraction(*x['q'])) if isinstance(x, dict) else float(x)
+    m = len(r['A'])
+    p.model.add_subsystem('rA', LinMap(r['A']))
+    p.model.connect('g.' + r['src'], 'rA.x')
+    p.model.add_subsystem('rB', LinMap(fq(r['k']) * np.eye(m)))
+    p.model.connect('rA.y', 'rB.x')
+    of = ['rA.y', 'rB.y']
+    if r['k2'] is not None:
+        p.model.add_subsystem('rC', LinMap(fq(r['k2']) * np.eye(m)))
+        p.model.connect('rB.y', 'rC.x')
+        of.append('rC.y')
+    wrt = ['ext.' + e['name'] for e in case['ext']]
+    for w in wrt:
+        p.model.add_design_var(w)
+    for o in of:
+        p.model.add_constraint(o, upper=0.0)
+    p.setup(mode=mode)
+    set_vals(case, comps)
+    p.run_model()
+    return p, of, wrt
+
+
+def handle_rhs(case):
+    """rev totals with the linear-solution cache == fwd totals (each entry is <e_i, J e_j> = <J^T e_i, e_j>)"""
+    from openmdao.solvers.linear.linear_rhs_checker import LinearRHSChecker
+    hits = [0]
+    orig = LinearRHSChecker.get_solution
+
+    def counting(self, rhs_arr, system):
+        sol, z = orig(self, rhs_arr, system)
+        if sol is not None or z:
+            hits[0] += 1
+        return sol, z
+    LinearRHSChecker.get_solution = counting
+    try:
+        pf, of, wrt = build_rhs(case, 'fwd', None)
+        Jf = pf.compute_totals(of=of, wrt=wrt, return_format='array')
+        pr, of, wrt = build_rhs(case, 'rev', case['rhs_checking'])
+        Jr = pr.compute_totals(of=of, wrt=wrt, return_format='array')
+        Jr2 = pr.compute_totals(of=of, wrt=wrt, return_format='array')      # second call: cache was reset
+    finally:
+        LinearRHSChecker.get_solution = orig
+    kind = 'rhs:%s:%s' % (case['solver'], 'hit' if hits[0] else 'nohit')
+    for nm, J in (('first', Jr), ('second', Jr2)):
+        if not close(J, Jf, 1e-9):
+            return {'res': '__none__', 'ok': False, 'sig': 'C02:rhs-cache-totals', 'kind': kind,
+                    'msg': 'reverse totals with rhs_checking=%r under %s (%s compute_totals, %d cache hits) are %r, '
+                           'forward totals are %r: <w, J v> != <J^T w, v>' % (
+                               case['rhs_checking'], case['solver'], nm, hits[0], J.tolist(), Jf.tolist())}
+    return {'res': '__none__', 'ok': True, 'msg': '', 'sig': '', 'kind': kind}
+
+
 def handle(case):
     if case['kind'] == 'solve':
         return handle_solve(case)
+    if case['kind'] == 'rhs':
+        return handle_rhs(case)
     probs = {m: c11.build(case, None, m) for m in ('fwd', 'rev')}
     asm = {m: c11.build(case, 'csc', m) for m in ('fwd', 'rev')}
     for p, g, comps in list(probs.values()) + list(asm.values()):
